@@ -395,6 +395,9 @@ const (
 	clCollidePlural
 	clCollideSingular
 	clCollideListKind
+	// One optional name collides, the other optional name is omitted.
+	clCollideSingularNoListKind
+	clCollideListKindNoSingular
 	clNumSameField
 	// Cross-field overlaps (not promised to be rejected; observed only).
 	clCrossSingularPlural = clNumSameField
@@ -402,7 +405,7 @@ const (
 	clNumAll              = clNumSameField + 2
 )
 
-var claimVariantNames = []string{"full", "absent", "minimal", "collide-kind", "collide-plural", "collide-singular", "collide-listKind", "cross-singular=plural", "cross-kind=listKind"}
+var claimVariantNames = []string{"full", "absent", "minimal", "collide-kind", "collide-plural", "collide-singular", "collide-listKind", "collide-singular-listKind-omitted", "collide-listKind-singular-omitted", "cross-singular=plural", "cross-kind=listKind"}
 
 func claimNames(variant int) *extv1.CustomResourceDefinitionNames {
 	n := &extv1.CustomResourceDefinitionNames{Kind: "Thing", Plural: "things", Singular: "thing", ListKind: "ThingList"}
@@ -419,6 +422,10 @@ func claimNames(variant int) *extv1.CustomResourceDefinitionNames {
 		n.Singular = "xthing"
 	case clCollideListKind:
 		n.ListKind = "XThingList"
+	case clCollideSingularNoListKind:
+		n.Singular, n.ListKind = "xthing", ""
+	case clCollideListKindNoSingular:
+		n.Singular, n.ListKind = "", "XThingList"
 	case clCrossSingularPlural:
 		n.Singular = "xthings"
 	case clCrossKindListKind:
